@@ -487,14 +487,57 @@ func subReadResults() mon.Sub {
 						return
 					}
 					hs = append(hs, held{what: "ClosedError.Reason", get: func() string { return ce.Reason }, want: reason})
-				case 1: // ReadMessage: intermediate ping + message
-					ms, err := wsutil.ReadMessage(xport.NewChunker(stream, plans[k%len(plans)]), stateOf(side), nil)
-					if err != nil || len(ms) != 2 {
-						c.Fail("harness/readmessage", fmt.Sprintf("ReadMessage failed: %v (%d messages)", err, len(ms)), nil)
+				case 1: // ReadMessage: 1-5 intermediate pings / pongs (different payloads) over 2-4 fragments + the message
+					nfrag := 2 + k/7%3
+					var st1 []byte
+					var ctlWant []string
+					enc := func(f ref.Frame) {
+						if side == ref.SideServer {
+							f.H.Masked = true
+							c.Rng.Read(f.H.Mask[:])
+						}
+						st1 = append(st1, f.Encode()...)
+					}
+					for fi := 0; fi < nfrag; fi++ {
+						op, fin := byte(ref.OpCont), fi == nfrag-1
+						if fi == 0 {
+							op = ref.OpText
+						}
+						enc(ref.Frame{H: ref.Header{Fin: fin, Op: op}, Payload: payload[fi*sz/nfrag : (fi+1)*sz/nfrag]})
+						if fin {
+							break
+						}
+						nctl := 1 + (k/3+fi)%2
+						if fi > 0 {
+							nctl = (k/5 + fi) % 3
+						}
+						for ci := 0; ci < nctl; ci++ {
+							p := reason
+							cop := byte(ref.OpPing)
+							if len(ctlWant) > 0 {
+								// later control frames: other payloads of the same and of other lengths, pongs among them
+								p = strings.Repeat(string(rune('a'+(k+len(ctlWant))%26)), (k/11+len(ctlWant)*37)%126)
+								if (k+len(ctlWant))%3 == 0 {
+									cop = ref.OpPong
+								}
+							}
+							ctlWant = append(ctlWant, p)
+							enc(ref.Frame{H: ref.Header{Fin: true, Op: cop}, Payload: []byte(p)})
+						}
+					}
+					ms, err := wsutil.ReadMessage(xport.NewChunker(st1, plans[k%len(plans)]), stateOf(side), nil)
+					if err != nil || len(ms) != len(ctlWant)+1 {
+						c.Fail("harness/readmessage", fmt.Sprintf("ReadMessage failed: %v (%d messages, %d control frames sent)", err, len(ms), len(ctlWant)), nil)
 						return
 					}
-					hs = append(hs, held{what: "ReadMessage control payload", get: func() string { return string(ms[0].Payload) }, want: reason},
-						held{what: "ReadMessage payload", get: func() string { return string(ms[1].Payload) }, want: string(payload)})
+					for ci := range ctlWant {
+						ci := ci
+						hs = append(hs, held{what: fmt.Sprintf("ReadMessage control payload #%d of %d", ci, len(ctlWant)), get: func() string { return string(ms[ci].Payload) }, want: ctlWant[ci]})
+					}
+					hs = append(hs, held{what: "ReadMessage payload", get: func() string { return string(ms[len(ctlWant)].Payload) }, want: string(payload)})
+					if !recheck(c, hs, "ReadMessage returned") {
+						return
+					}
 					// the application answers the control message it was handed (and keeps it): the
 					// reply is a pong echoing the payload, the message it holds stays what it was
 					var reply bytes.Buffer
